@@ -1741,7 +1741,7 @@ sf_read_raw		(SNDFILE *sndfile, void *ptr, sf_count_t bytes)
 
 	count = psf_fread (ptr, 1, bytes, psf) ;
 
-	if (psf->read_current + count / blockwidth <= psf->sf.frames)
+	if (count <= (psf->sf.frames - psf->read_current) * blockwidth)
 		psf->read_current += count / blockwidth ;
 	else
 	{	count = (psf->sf.frames - psf->read_current) * blockwidth ;
